@@ -18,7 +18,19 @@ class _Sum:
         return s
 
 
+_OFF = set()
+
+
+def unregister(name):
+    """The application removes the service registered under name (driver commands UNREG / REG)."""
+    _OFF.add(name)
+
+
+def register(name):
+    _OFF.discard(name)
+
+
 def create_checksum_service(name):
-    if name in _W:
+    if name in _W and name not in _OFF:
         return _Sum(*_W[name])
     return None
